@@ -27,9 +27,9 @@ func execSplines(g *graph.DGraph, routes []routableEdge) {
 			imonitor.Log("route-node", n)
 		}
 
-		// with zero layer spacing or zero-size nodes some rectangles have no area and there is no room to route a curve:
-		// draw the edge like one that doesn't encounter obstacles
-		if !routable(rects) {
+		// with zero layer spacing or zero-size nodes some rectangles have no area and there is no room to route a curve;
+		// positioners that ignore node sizes may leave no corridor at all: draw the edge like one that doesn't encounter obstacles
+		if !routable(start, end, rects) {
 			e.Points = geom.MakeSpline(start, end).Float64Slice()
 			continue
 		}
@@ -57,14 +57,25 @@ func execSplines(g *graph.DGraph, routes []routableEdge) {
 	}
 }
 
-// reports whether all rectangles have a positive area, which the shortest path algorithm relies on
-func routable(rects []geom.Rect) bool {
-	for _, r := range rects {
+// reports whether the rectangles form a corridor that the shortest path algorithm can work with: all rectangles have a
+// positive area, each one starts where the previous one ends and shares a piece of boundary with it, and the start and end
+// points lie in the first and last rectangle. Positioners that ignore node sizes may place nodes so that this doesn't hold.
+func routable(start, end geom.P, rects []geom.Rect) bool {
+	for i, r := range rects {
 		if !(r.Width() > 0 && r.Height() > 0) {
 			return false
 		}
+		if i > 0 {
+			p := rects[i-1]
+			if p.BR.Y != r.TL.Y || !(min(p.BR.X, r.BR.X) > max(p.TL.X, r.TL.X)) {
+				return false
+			}
+		}
 	}
-	return true
+	inside := func(p geom.P, r geom.Rect) bool {
+		return p.X >= r.TL.X && p.X <= r.BR.X && p.Y >= r.TL.Y && p.Y <= r.BR.Y
+	}
+	return len(rects) > 0 && inside(start, rects[0]) && inside(end, rects[len(rects)-1])
 }
 
 func buildRects(g *graph.DGraph, r routableEdge) (rects []geom.Rect) {
